@@ -44,20 +44,28 @@ theorem replaceAll_no_head (s old new : Str) (h : Char) (t : Str) (hold : old = 
 theorem digit_ne_bracket {c : Char} (h : isAsciiDigit c = true) : c ≠ '[' := by
   intro e; subst e; simp [isAsciiDigit] at h
 
-theorem format_tokens_n : tokens Gen.format_token_re "%n".toList = .ok ["%n".toList] := by decide +kernel
+def finditerIs (pat s : Str) (want : List (Nat × Nat × Str × Caps)) : Bool :=
+  match reOrErr pat with
+  | .ok r => finditer r s == want
+  | .error _ => false
+
+theorem format_finditer_n : finditerIs Gen.format_token_re "%n".toList [(0, 2, "%n".toList, [])] = true := by decide +kernel
 
 /-- `format("%n")` prints `str(n)` -/
 theorem formatVal_n (n : Nat) : formatVal Serial.cls n "%n".toList = .ok (showNat n) := by
   unfold formatVal
-  have h0 : replaceAll "%n".toList ['%', '%'] Gen.format_escape = "%n".toList := by decide +kernel
-  have hrow : (Serial.cls.rows.any fun r => r.1 == "%n".toList) = true := by decide +kernel
-  have hr : Serial.cls.render "%n".toList n = .ok (showNat n) := rfl
-  have hrep : replaceAll "%n".toList "%n".toList (showNat n) = showNat n := by
-    simp [replaceAll, replaceGo, List.isPrefixOf]
-  have hesc : Gen.format_escape = '[' :: "ESCAPE]".toList := by decide +kernel
-  have hfin : replaceAll (showNat n) Gen.format_escape ['%'] = showNat n :=
-    replaceAll_no_head _ _ _ '[' _ hesc (fun c hc => digit_ne_bracket (showNat_digits n c hc))
-  simp only [h0, format_tokens_n, bind, Except.bind, List.foldlM, hrow, ↓reduceIte, hr, hrep, pure, Except.pure, hfin]
+  have hf := format_finditer_n
+  unfold finditerIs at hf
+  cases hr : reOrErr Gen.format_token_re with
+  | error e => simp [hr] at hf
+  | ok r =>
+    simp only [hr] at hf
+    have hf' : finditer r "%n".toList = [(0, 2, "%n".toList, [])] := by simpa using hf
+    have hrow : (Serial.cls.rows.any fun r => r.1 == "%n".toList) = true := by decide +kernel
+    have hr' : Serial.cls.render "%n".toList n = .ok (showNat n) := rfl
+    have hne : ("%n".toList == ['%', '%']) = false := by decide
+    simp only [bind, Except.bind, subFold, hf', List.foldlM, hne, Bool.false_eq_true, ↓reduceIte, hrow, hr', Except.map, pure, Except.pure]
+    simp
 
 /-- **Serial `%n` round trip, every n, both modes** -/
 theorem C01_serial_n (n : Nat) (strict : Bool) :
